@@ -213,6 +213,9 @@ func srcKinds() []srcKind {
 		}},
 		{Name: "ReadOnly", Exact: false, Make: func(d []byte, _ *rand.Rand) (io.Reader, func() int) { return &vhlib.ReadOnly{B: d}, nil }},
 		{Name: "OneBytePerRead", Exact: false, Make: func(d []byte, _ *rand.Rand) (io.Reader, func() int) { return &vhlib.ReadOnly{B: d, Cap: 1}, nil }},
+		{Name: "bufio-over-DataWithEOF", Exact: false, Make: func(d []byte, rng *rand.Rand) (io.Reader, func() int) {
+			return bufio.NewReaderSize(&vhlib.ReadOnly{B: d, WithEOF: true}, []int{16, 512, 4096, 65536}[rng.Intn(4)]), nil
+		}},
 		{Name: "DataWithEOF", Exact: false, Make: func(d []byte, _ *rand.Rand) (io.Reader, func() int) { return &vhlib.ReadOnly{B: d, WithEOF: true}, nil }},
 	}
 }
